@@ -202,7 +202,11 @@ func (r *Replayer) Build(w *World) error {
 func (r *Replayer) Run(cases []ReplayCase) ([]ReplayResult, error) {
 	var all []ReplayResult
 	batch := 0
+	hangs := 0
 	for len(cases) > 0 {
+		if hangs >= 3 {
+			break // the code under test hangs natively on several witnesses: enough to report, stop waiting
+		}
 		batch++
 		in := filepath.Join(r.WorkDir, fmt.Sprintf("cases_%d_%d.json", os.Getpid(), batch))
 		out := filepath.Join(r.WorkDir, fmt.Sprintf("out_%d_%d.json", os.Getpid(), batch))
@@ -225,6 +229,9 @@ func (r *Replayer) Run(cases []ReplayCase) ([]ReplayResult, error) {
 			return all, err
 		}
 		all = append(all, res...)
+		if n := len(res); n > 0 && res[n-1].TimedOut {
+			hangs++
+		}
 		if len(res) == 0 {
 			return all, fmt.Errorf("replay produced no results: %s", o)
 		}
